@@ -28,6 +28,9 @@ aval = z3.Function("aval", Label, Real)
 anc = z3.Function("anc", Int, Label)               # the label '__a<n>' (constraint ancilla names)
 pow2 = z3.Function("pow2", Int, Int)              # 2 ** i
 slack = z3.Function("slack", Int, Int, Bool, Int)   # slack(a0, n, log): sum_{i<n} w_i * xval(anc(a0+i)),  w_i = 2^i (log) or 1
+LSet = z3.ArraySort(Label, Bool)                  # a set of labels as a characteristic array
+memset = z3.Function("memset", Key, LSet)         # the set of members of a key
+CARD = z3.Function("CARD", LSet, Int)             # cardinality of a finite label set
 matvalid = z3.Function("matvalid", Key, Bool)    # every member is a non-negative int (Matrix types' key validity)            # a second ghost assignment ("values"/"connections" maps)
 
 LEMMAS = {
@@ -39,6 +42,7 @@ LEMMAS = {
     "L5-fold-update": "finite-sum update law: sum over d[k:=c] == sum over d - old contribution + new contribution",
     "L6/L7-slack": "slack(a0,n,log) = sum of w_i*a_i over the n ancilla bits is an integer in [0, cap(n)], cap = 2^n - 1 (log) or n (unary); every integer in that range is attained by some setting of the bits (existence is used only at the meta level, see DESIGN 11.7)",
     "L8-num_bits": "num_bits(v, log_trick) = n with cap(n) >= v for v >= 0",
+    "set-facts": "memset of empty/unit/concat; members(sorted(set k)) = members(k); members(ssq k) subset members(k); |S + {i}| = |S| + [i not in S]",
     "sq-shape": "sq(k) is duplicate-free, sorted, idempotent, no longer than k, members(sq k) subset members(k), identity on length <= 1",
 }
 
@@ -63,6 +67,9 @@ class Facts:
         self._seen_keys = set()
         self._seen_labels = set()
         self.used = set()
+        self.track_sets = False
+        self._concats = []
+        self._sqs = []
 
     def add(self, f):
         self.facts.append(f)
@@ -109,6 +116,9 @@ class Facts:
         self.add(bmono(k) == bmono(a) * bmono(b))
         self.add(smono(k) == smono(a) * smono(b))
         self.add(matvalid(k) == z3.And(matvalid(a), matvalid(b)))
+        self._concats.append((a, b, k))
+        if self.track_sets:
+            self.memset_concat(a, b, k)
         return k
 
     def unit(self, i):
@@ -130,6 +140,64 @@ class Facts:
                                            smono(k) == zval(k[0]) * smono(t), z3.Length(t) == n - 1,
                                            matvalid(k) == z3.And(matvalid(unit(k[0])), matvalid(t)))))
         return t
+
+    # ---- finite sets of labels (C14 bookkeeping): characteristic arrays, combinatory array logic
+    _p, _q = z3.Bool("_p"), z3.Bool("_q")
+    OR_DECL = z3.Or(_p, _q).decl()
+    AND_DECL = z3.And(_p, _q).decl()
+    IMP_DECL = z3.Implies(_p, _q).decl()
+
+    def _sq_set_fact(self, spin, k, r):
+        if spin:
+            self.add(self.set_subset(self.memset_of(r), self.memset_of(k)))
+        else:
+            self.add(self.memset_of(r) == self.memset_of(k))       # sorted(set(k)) has the same members as k
+        self.used.add("set-facts")
+
+    def enable_sets(self):
+        """from now on (and retroactively) relate memset to concatenation and canonicalisation"""
+        if self.track_sets:
+            return
+        self.track_sets = True
+        for a, b, k in list(self._concats):
+            self.memset_concat(a, b, k)
+        for spin, k, r in list(self._sqs):
+            self._sq_set_fact(spin, k, r)
+
+    def set_union(self, a, b):
+        return z3.Map(self.OR_DECL, a, b)
+
+    def set_inter(self, a, b):
+        return z3.Map(self.AND_DECL, a, b)
+
+    def set_subset(self, a, b):
+        return z3.Map(self.IMP_DECL, a, b) == z3.K(Label, z3.BoolVal(True))
+
+    def empty_set(self):
+        return z3.K(Label, z3.BoolVal(False))
+
+    def memset_of(self, k, spin_sq_of=None):
+        """memset(k) with its defining facts for the shapes the engine knows about"""
+        m = memset(k)
+        h = ("ms", k.get_id())
+        if h in self._seen_keys:
+            return m
+        self._seen_keys.add(h)
+        n = z3.Length(k)
+        self.add(z3.Implies(n == 0, m == self.empty_set()))
+        self.add(z3.Implies(n == 1, m == z3.Store(self.empty_set(), k[0], z3.BoolVal(True))))
+        self.add(z3.Implies(n == 2, m == z3.Store(z3.Store(self.empty_set(), k[0], z3.BoolVal(True)), k[1], z3.BoolVal(True))))
+        return m
+
+    def memset_concat(self, a, b, k):
+        self.add(self.memset_of(k) == self.set_union(self.memset_of(a), self.memset_of(b)))
+
+    def card_add(self, mem, i, card):
+        """cardinality after adding label i to the set mem whose cardinality is card"""
+        new = z3.Store(mem, i, z3.BoolVal(True))
+        c2 = card + z3.If(z3.Select(mem, i), z3.IntVal(0), z3.IntVal(1))
+        self.add(CARD(new) == c2)
+        return new, c2
 
     def anc_label(self, n):
         """the label '__a%d' % n ; distinct numbers give distinct labels"""
@@ -175,5 +243,8 @@ class Facts:
         self.add(z3.Length(r) <= z3.Length(k))
         self.add(z3.Implies(z3.Length(k) <= 1, r == k))
         self.add(z3.Implies(matvalid(k), matvalid(r)))
+        self._sqs.append((spin, k, r))
+        if self.track_sets:
+            self._sq_set_fact(spin, k, r)
         self.used.add("sq-shape")
         return r
